@@ -7,6 +7,7 @@
   permutation of what is enumerated.  After the repairs D6 (INI sections) and D7 (map rendering)
   every such place sorts, or applies effects on distinct keys.
 -/
+import GoFlags.Props.C15.Facts
 import GoFlags.Ini
 import GoFlags.Man
 import GoFlags.Completion
